@@ -4,7 +4,7 @@ CONSTANTS
   Master = "V1"
   InitOrder <- Order2
   ASOf <- AS2
-  UploadSets <- U_t2m4_dev
+  UploadSets <- U_t2m4_nm
   Windows = {8}
   InitWindow = 8
   Video <- Vid2
